@@ -112,7 +112,7 @@ func ZZC04() {
 	v.Observe("schema", st)
 	v.Observe("example", ex)
 	s := jschema.New("s", st)
-	cerr := s.Check()
+	cerr := c04Check(s)
 	if cerr == nil {
 		v.Reach("C04/check-accepts")
 		v.Assert(len(bad) == 0, "C04/check-accepts-example-violating-its-rule")
@@ -168,7 +168,7 @@ func ZZC04Items() {
 	ex := gen.JSON(gen.ExampleDoc(root))
 	v.Observe("schema", st)
 	s := jschema.New("s", st)
-	cerr := s.Check()
+	cerr := c04Check(s)
 	if cerr == nil {
 		v.Reach("C04/items-accepted")
 		v.Assert(obeys, "C04/check-accepts-example-violating-its-rule")
@@ -213,7 +213,7 @@ func ZZC04Nest() {
 	v.Observe("schema", st)
 	v.Observe("example", ex)
 	s := jschema.New("s", st)
-	cerr := s.Check()
+	cerr := c04Check(s)
 	if cerr == nil {
 		v.Reach("C04/nest-accepts")
 		v.Assert(ok, "C04/check-accepts-example-violating-its-rule")
@@ -248,7 +248,7 @@ func ZZC04Kinds() {
 	st := "{\n  \"a\": " + t1[:2] + "," + t1[2:] + "\n  \"b\": " + t2 + "\n}"
 	v.Observe("schema", st)
 	s := jschema.New("s", st)
-	cerr := s.Check()
+	cerr := c04Check(s)
 	if ok1 && ok2 {
 		v.Reach("C04/kinds-admitted")
 		v.Assert(cerr == nil, "C04/check-rejects-valid-schema")
@@ -329,7 +329,7 @@ func ZZC04Or() {
 	for _, t := range types {
 		v.Assert(s.AddType(t.name, jschema.New(t.name, t.text)) == nil, "C04/addtype-failed")
 	}
-	cerr := s.Check()
+	cerr := c04Check(s)
 	if ok {
 		v.Reach("C04/or-admitted")
 		v.Assert(cerr == nil, "C04/check-rejects-valid-schema")
@@ -368,7 +368,7 @@ func ZZC04Esc() {
 	text := cat(lit, bs(" // {"), bs(rule), bs(": "), p, bs("}"))
 	v.Observe("schema", text)
 	s := jschema.New("s", text)
-	cerr := s.Check()
+	cerr := c04Check(s)
 	if ok {
 		v.Reach("C04/esc-obeys")
 		v.Assert(cerr == nil, "C04/check-rejects-valid-schema")
@@ -388,4 +388,12 @@ func init() {
 	ZZHarnesses["ZZC04Kinds"] = ZZC04Kinds
 	ZZHarnesses["ZZC04"] = ZZC04
 	ZZHarnesses["ZZC04Items"] = ZZC04Items
+}
+
+// c04Check: Check's verdict is that of the schema, also when it is asked a second time.
+func c04Check(s *jschema.Schema) error {
+	cerr := s.Check()
+	again := s.Check()
+	v.Assert((cerr == nil) == (again == nil), "C04/second-check-differs")
+	return cerr
 }
